@@ -178,6 +178,7 @@ class World:
             _generation = property(_get_generation, _set_generation)
         self.base = BaseReg()
         self.base2 = BaseReg()
+        self.base3 = BaseReg()      # not among the registry's bases at first
         self.other = regbase()
         self.reg = Reg((self.base, self.base2))
         self.fOLD = F('OLD', self)
@@ -298,7 +299,7 @@ class World:
             # assignment fails once while it reads a base's _generation
             self.generation_fails = 1
             try:
-                reg.__bases__ = (self.base2,)
+                reg.__bases__ = (self.base3,)
             finally:
                 failed = not self.generation_fails
                 self.generation_fails = 0
@@ -327,7 +328,8 @@ class World:
         if a in ('register-then-raise', 'register-while-generation-fails'):
             a = 'register-better'
         if a == 'rebase-while-generation-fails':
-            a = 'rebase-registry'
+            self.reg.__bases__ = (self.base3,)
+            return
         if a == 'reenter-then-register-in-base':
             a = 'register-in-base'
         self.do_action(a)
@@ -601,6 +603,7 @@ def scenario(case, light=False):
     for x in (w, t):
         x.base.register([x.I1], x.P, 'b1', x.fNEW)
         x.base2.register([x.I1], x.P, 'b2', x.fNEW)
+        x.base3.register([x.I1], x.P, 'b3', x.fNEW)
     for e in ENTRIES:
         lz = e in LAZY_OK and lazy
         a, b = norm(w.call(e, lz)), norm(t.call(e, lz))
